@@ -13,3 +13,21 @@ Theorem C06_source_operator_limits : forall (o : op_limits) (vr : list go_issue)
   = vr ++ map goi (v_op_limits o).
 Proof. exact vc_op_limits. Qed.
 Print Assumptions C06_source_operator_limits.
+
+(* Mapping.Validate (and WeightedMapping.GetWeight) as translated on this run: every source subject and every target
+   subject validated, the weights of one source - a weight of 0 counting as 100 - summed in the integer type the code
+   sums them in (arithmetic in a type of fewer than 64 bits is translated WITH its wrap-around, so the 8-bit sum of
+   fixed defect F2 would not be equal to the model's sum), one blocking issue when the sum exceeds 100: exactly the
+   model's [v_mappings], for every mapping.  A Go map is read as its list of entries in iteration order. *)
+Theorem C06_source_mappings : forall (m : list (string * list (string * Z * string))) (vr : list go_issue),
+  V2.Mapping_Validate m vr = vr ++ map goi (v_mappings (mapping_of m)).
+Proof. exact vc_mappings. Qed.
+Print Assumptions C06_source_mappings.
+
+(* Limits.Validate (a user's source networks, connection times, time zone) as translated on this run: every network
+   through net.ParseCIDR (an error or a nil network is a blocking issue), every time range through the translated
+   TimeRange.Validate, the zone through time.LoadLocation - exactly the model's [v_user_limits] *)
+Theorem C06_source_user_limits : forall cidr_ok hhmmss_ok tz_ok (l : user_limits) (vr : list go_issue),
+  src_limits_validate cidr_ok hhmmss_ok tz_ok l vr = vr ++ map goi (v_user_limits cidr_ok hhmmss_ok tz_ok l).
+Proof. exact vc_limits. Qed.
+Print Assumptions C06_source_user_limits.
